@@ -14,18 +14,22 @@ import (
 	"crypto/rand"
 	"encoding/base64"
 	"encoding/json"
+	"errors"
 	"fmt"
 	"net/http"
 	"strings"
 	"testing"
+	"time"
 
 	"github.com/lestrrat-go/jwx/v2/jwa"
+	"github.com/lestrrat-go/jwx/v2/jwt"
 	"github.com/nuts-foundation/go-did/did"
 	"github.com/nuts-foundation/go-did/vc"
 	"github.com/nuts-foundation/nuts-node/auth/oauth"
 	"github.com/nuts-foundation/nuts-node/crypto/dpop"
 	"github.com/nuts-foundation/nuts-node/http/user"
 	"github.com/nuts-foundation/nuts-node/mock"
+	credentialpkg "github.com/nuts-foundation/nuts-node/vcr/credential"
 	"github.com/nuts-foundation/nuts-node/vcr/issuer"
 	"github.com/nuts-foundation/nuts-node/vcr/pe"
 	"github.com/nuts-foundation/nuts-node/vcr/signature/proof"
@@ -45,7 +49,11 @@ func init() {
 	// --- (2) service-to-service presentation nonce, handleS2SAccessTokenRequest -> validateS2SPresentationNonce ---
 	c05Register(&c05Kind{
 		name: "s2s-nonce",
-		setup: func(x *h.Ctx, fx *c05Fixture) (string, func(string, int) c05Outcome) {
+		// created: the holder's clock may be off in either direction; valid: shorter-lived presentations
+		claims: []string{"created=-4s", "created=+4s", "created=-4s,valid=1s", "created=+4s,valid=1s", "created=+0s,valid=1s", "created=-9s", "created=+10s"},
+		// the (time-faithful) verifier mock refuses the presentation outside its window, so one acceptance for ever
+		window: func(string) time.Duration { return 0 },
+		setup: func(x *h.Ctx, fx *c05Fixture, claims string) (string, func(string, int) c05Outcome) {
 			t, ok := x.TB.(*testing.T)
 			if !ok {
 				x.Fatalf("need *testing.T for the repository's presentation helpers")
@@ -63,9 +71,19 @@ func init() {
 			x.NoErr(err, "subject DID")
 			domain := c05VerifierURL
 			nonce := "the-s2s-presentation-nonce"
+			// client-chosen time claims of the presentation: proof.created relative to now, and its validity
+			cl := c05ParseClaims(x, claims)
+			created := time.Now().Add(cl["created"])
+			validity := 5 * time.Second
+			if v, ok := cl["valid"]; ok {
+				validity = v
+			}
+			expires := created.Add(validity)
 			presentation := test.CreateJSONLDPresentation(t, *subjectDID, test.LDProofVisitor(func(p *proof.LDProof) {
 				p.Domain = &domain
 				p.Nonce = &nonce
+				p.Created = created
+				p.Expires = &expires
 			}), credential)
 			raw := presentation.Raw()
 			fx.policy.EXPECT().PresentationDefinitions(gomock.Any(), scope).DoAndReturn(func(_ context.Context, _ string) (pe.WalletOwnerMapping, error) {
@@ -75,7 +93,17 @@ func init() {
 				}
 				return pe.WalletOwnerMapping{pe.WalletOwnerOrganization: pd}, nil
 			}).AnyTimes()
+			// The verifier succeeds for everything except the one thing that defines how long the presentation is a
+			// usable value at all: the time window of its proof, checked exactly as the real signature verifier does
+			// (vcr/verifier/signature_verifier.go: ldProof.ValidAt(now, maxSkew) with maxSkew = 5s), on the harness clock.
 			fx.verifier.EXPECT().VerifyVP(gomock.Any(), true, true, gomock.Any()).DoAndReturn(func(p vc.VerifiablePresentation, _ bool, _ bool, _ any) ([]vc.VerifiableCredential, error) {
+				ldProof, err := credentialpkg.ParseLDProof(p)
+				if err != nil {
+					return nil, err
+				}
+				if !ldProof.ValidAt(fx.now(), 5*time.Second) {
+					return nil, errors.New("verification error: presentation not valid at given time")
+				}
 				return p.VerifiableCredential, nil
 			}).AnyTimes()
 			request := func(_ string, _ int) c05Outcome {
@@ -101,12 +129,32 @@ func init() {
 	// --- (3) DPoP proof id (jti), ValidateDPoPProof ---
 	c05Register(&c05Kind{
 		name: "dpop-jti",
-		setup: func(x *h.Ctx, fx *c05Fixture) (string, func(string, int) c05Outcome) {
+		// iat is required and must not lie in the future (jwt validation inside dpop.Parse); its age is not bounded.
+		// exp / nbf are optional claims that the same validation honours.
+		claims: []string{"iat=-60s", "iat=-840s", "iat=-897s", "iat=-960s", "iat=-3600s", "iat=-31536000s", "iat=+30s",
+			"iat=-60s,exp=+60s", "iat=-3600s,exp=+3600s", "iat=-960s,nbf=-960s"},
+		// a used jti must be remembered for the lifetime of the access token the proof is bound to (at most
+		// accessTokenValidity after the first use), or until the proof's own exp if that comes earlier.
+		window: func(claims string) time.Duration {
+			w := accessTokenValidity
+			if exp, ok := c05ParseClaimsQuiet(claims)["exp"]; ok && exp < w {
+				w = exp
+			}
+			return w
+		},
+		setup: func(x *h.Ctx, fx *c05Fixture, claims string) (string, func(string, int) c05Outcome) {
 			const accessToken = "token"
 			const method, target = "POST", "https://server.example.com/token"
 			httpRequest, err := http.NewRequest(method, target, nil)
 			x.NoErr(err, "request")
 			p := dpop.New(*httpRequest)
+			// client-chosen time claims of the proof, relative to now
+			cl := c05ParseClaims(x, claims)
+			for claim, key := range map[string]string{"iat": jwt.IssuedAtKey, "exp": jwt.ExpirationKey, "nbf": jwt.NotBeforeKey} {
+				if d, ok := cl[claim]; ok {
+					x.NoErr(p.Token.Set(key, time.Now().Add(d)), "set "+claim)
+				}
+			}
 			p.GenerateProof(accessToken)
 			keyPair, err := ecdsa.GenerateKey(elliptic.P256(), rand.Reader)
 			x.NoErr(err, "key")
@@ -147,7 +195,7 @@ func init() {
 	// --- (4a) OpenID4VP nonce, HandleAuthorizeResponse -> handleAuthorizeResponseSubmission -> validatePresentationNonce ---
 	c05Register(&c05Kind{
 		name: "openid4vp-nonce",
-		setup: func(x *h.Ctx, fx *c05Fixture) (string, func(string, int) c05Outcome) {
+		setup: func(x *h.Ctx, fx *c05Fixture, claims string) (string, func(string, int) c05Outcome) {
 			const challenge = "the-openid4vp-nonce"
 			const state = "state"
 			mapping := pe.WalletOwnerMapping{pe.WalletOwnerOrganization: pe.PresentationDefinition{
@@ -194,7 +242,7 @@ func init() {
 		m := m
 		c05Register(&c05Kind{
 			name: "request-object-" + m,
-			setup: func(x *h.Ctx, fx *c05Fixture) (string, func(string, int) c05Outcome) {
+			setup: func(x *h.Ctx, fx *c05Fixture, claims string) (string, func(string, int) c05Outcome) {
 				const id = "the-request-object-id"
 				audience := ""
 				if m == "get" {
@@ -231,7 +279,7 @@ func init() {
 	// --- (5) user redirect token, handleUserLanding ("Burn on use", user.go) ---
 	c05Register(&c05Kind{
 		name: "user-redirect-token",
-		setup: func(x *h.Ctx, fx *c05Fixture) (string, func(string, int) c05Outcome) {
+		setup: func(x *h.Ctx, fx *c05Fixture, claims string) (string, func(string, int) c05Outcome) {
 			const token = "the-redirect-token"
 			details := UserDetails{Id: "test", Name: "John Doe", Role: "Caregiver"}
 			redirectSession := RedirectSession{
